@@ -1,12 +1,14 @@
 """C06 obligations (DESIGN.md C06)."""
-BASE = dict(src="p2hex.c", include=["p2hex.c", "toolutils.c"], units=["bpemu.c"], stubs=[], unwind=12,
-            unwind_fn={"cf_load": 40, "cf_build": 10, "harness": 10, "ProcessFile": 8, "vp_vfprintf": 40, "end_line": 18, "vp_num": 10}, object_bits=13, timeout=1700, mem_gb=24,
+BASE = dict(src="p2hex.c", include=["p2hex.c", "toolutils.c"], units=["bpemu.c"], cuts={"bpemu.c": ["FileSize"]}, stubs=[], unwind=12,
+            unwind_fn={"cf_load": 40, "cf_build": 10, "harness": 10, "vp_vfprintf": 22, "end_line": 18, "vp_num": 10},
+            # ProcessFile loops by source line: 420 record loop (record, terminator, +1), 512 line loop (ceil(5/2)+bank split+1), 552 Atmel, 584 DSK, 599/665 data bytes per line (<= 4, +1), 707 S-terminator
+            unwindset=["ProcessFile.4:4", "ProcessFile.0:6", "ProcessFile.1:5", "ProcessFile.2:5", "ProcessFile.3:6", "ProcessFile.5:6", "ProcessFile.6:6"], object_bits=13, timeout=1700, mem_gb=24,
             assumes=["stdio replaced by the memory-file model; target text through the printf monitor into an online per-format decoder",
                      "option callbacks not executed: option statics set directly", "AddChunk cut (overlap warning not the subject here)",
                      "one long-form data record, granularity 1, segment CODE, -m 0; terminator/entry records of main() outside",
                      "narrow %0NX fields: value width not checked (CBMC variadic model)"])
 def f(name, fmt, bounds, **kw):
-    d = dict(BASE); d.update(name=name, defs=["FMT=" + fmt, "CF_L=5", "STRINGSIZE=16"], functions=["p2hex.c:ProcessFile", "toolutils.c:ReadRecordHeader", "toolutils.c:FilterOK"], bounds=bounds); d.update(kw); return d
+    d = dict(BASE); d.update(name=name, defs=["FMT=" + fmt, "FMTN=%d" % {"eHexFormatMotoS": 1, "eHexFormatIntel": 2, "eHexFormatIntel16": 3, "eHexFormatIntel32": 4, "eHexFormatMOS": 5}[fmt], "CF_L=5", "STRINGSIZE=16"], functions=["p2hex.c:ProcessFile", "toolutils.c:ReadRecordHeader", "toolutils.c:FilterOK"], bounds=bounds); d.update(kw); return d
 B = "one record of 1..5 bytes at any start, window/-R relocation/-a relative addressing symbolic, line length 2 or 4"
 OBLIGATIONS = [
     f("intel8", "eHexFormatIntel", B + ", addresses < 64K"),
